@@ -9,7 +9,13 @@
 // kinds raft1 / kill / net (thorough): real raft.NewConsensus nodes on loopback libp2p hosts,
 // see raft.go.
 //
-//	C01 <kind> <nrep> <ops> <events> => <obs> ...       obs = res~applied~view~calls
+//	C01 <kind> <nrep> <ops> <events> => G<bits> <obs> ...       obs = res~applied~view~calls
+//
+// <ops> is the SUBMITTED sequence. G<bits> is what the real commit() of consensus/raft answers for each of
+// them before its first attempt (raft.VerifCommitGate: 1 = goes on to commit, 0 = refused with an error,
+// since /repo 3d753d4 for operations that cannot be decoded from the log). Only the operations it lets
+// through are committed (kind fsm); kind fsmraw feeds every op to the FSM as a raw log entry, bypassing
+// commit(): a robustness stream that is NOT reachable through LogPin / LogUnpin.
 package main
 
 import (
@@ -181,6 +187,38 @@ func (o op) encode() []byte {
 		panic(err)
 	}
 	return b
+}
+
+// gate asks the real commit() whether it would go on to commit the op (nil) or refuses it.
+func gate(o op) (err error) {
+	defer func() {
+		if x := recover(); x != nil {
+			err = fmt.Errorf("panic: %v", x)
+		}
+	}()
+	t := raft.LogOpType(raft.LogOpUnpin)
+	if o.pin {
+		t = raft.LogOpPin
+	}
+	return raft.VerifCommitGate(pinOf(o.tok), t, tracing)
+}
+
+// gateBits runs every submitted op through the gate: the G token and the ops that passed.
+func gateBits(ops []op) (string, []op) {
+	if len(ops) == 0 {
+		return "G-", nil
+	}
+	b := make([]byte, len(ops))
+	var passed []op
+	for i, o := range ops {
+		if gate(o) == nil {
+			b[i] = '1'
+			passed = append(passed, o)
+		} else {
+			b[i] = '0'
+		}
+	}
+	return "G" + string(b), passed
 }
 
 // ---------- FSM-level replicas ----------
@@ -506,9 +544,13 @@ func (w *world) exec(tok string) (obs string, ok bool) {
 	return fmt.Sprintf("%s~%d~%s~%s", res, a, v, calls), true
 }
 
-func runFSMCase(out *common.Out, n int, ops []op, events []string) {
+func runFSMCase(out *common.Out, kind string, n int, ops []op, events []string) {
 	tracing = tracingFor(ops)
-	w := newWorld(n, ops)
+	g, committed := gateBits(ops)
+	if kind == "fsmraw" {
+		committed = ops // raw log entries: commit() is bypassed
+	}
+	w := newWorld(n, committed)
 	obs := make([]string, 0, len(events))
 	for _, e := range events {
 		o, ok := w.exec(e)
@@ -522,7 +564,7 @@ func runFSMCase(out *common.Out, n int, ops []op, events []string) {
 	if len(events) > 0 {
 		evTok = strings.Join(events, ",")
 	}
-	out.Line("C01 fsm %d %s %s => %s", n, opsTok(ops), evTok, strings.Join(obs, " "))
+	out.Line("C01 %s %d %s %s => %s", kind, n, opsTok(ops), evTok, strings.TrimSpace(g+" "+strings.Join(obs, " ")))
 }
 
 func main() {
@@ -564,9 +606,9 @@ func main() {
 				events = strings.Split(f[4], ",")
 			}
 			switch f[1] {
-			case "fsm":
+			case "fsm", "fsmraw":
 				if kind == "fsm" {
-					runFSMCase(out, n, ops, events)
+					runFSMCase(out, f[1], n, ops, events)
 				}
 			default:
 				if kind == f[1] {
@@ -591,8 +633,8 @@ func main() {
 				continue
 			}
 			r := root.Fork(uint64(k))
-			nrep, ops, events := genFSMCase(r, k, a.Tier)
-			runFSMCase(out, nrep, ops, events)
+			fkind, nrep, ops, events := genFSMCase(r, k, a.Tier)
+			runFSMCase(out, fkind, nrep, ops, events)
 		}
 	case "redir":
 		if n < 0 {
